@@ -236,7 +236,7 @@ func (c *Ctx) RunJob(j Job) *JobResult {
 		jr.Inconclusive = append(jr.Inconclusive, "harness function not found: "+j.Pkg+"."+j.Fn)
 		return jr
 	}
-	cfg := &symgo.Config{MaxSteps: j.MaxSteps, MaxDepth: j.MaxDepth, Params: j.Params, Stubs: stubTable(j.Stubs), NondetMapOrder: j.Nondet}
+	cfg := &symgo.Config{MaxSteps: j.MaxSteps, MaxDepth: j.MaxDepth, Params: j.Params, Stubs: stubTable(j.Stubs), NondetMapOrder: j.Nondet, Summaries: symgo.DefaultSummaries}
 	if cfg.MaxSteps == 0 {
 		cfg.MaxSteps = 400000
 	}
